@@ -1,6 +1,86 @@
-(* C34 — placeholder while the proofs are being written (replaced below). *)
+(* C34 — Balance formatting and parsing round-trip. Property theorems only.
+   Text = list of character codes ('0' = 48, '.' = 46); dval s = decimal value of a digit string;
+   two64 = 2^64; POk / PSyntax / PRange = value / strconv.ErrSyntax / strconv.ErrRange. *)
 From Coq Require Import List NArith Bool.
-From HV Require Import Model.Balance.
-Theorem C34_placeholder : parse_balance (format_balance 8200000000%N) = POk 8200000000%N.
-Proof. reflexivity. Qed.
-Print Assumptions C34_placeholder.
+Import ListNotations.
+From HV Require Import Model.Balance Proofs.Balance_proofs.
+Local Open Scope N_scope.
+
+(* the amount in base units denoted by  w "." f  (w, f digit strings, 9 decimals) *)
+Definition value_of (w f : text) : N := dval w * 10 ^ 9 + dval f * 10 ^ (9 - N.of_nat (length f)).
+
+(* Every 64-bit balance formats to a string that parses back to the same balance. *)
+Theorem C34_roundtrip : forall b, b < 2 ^ 64 -> parse_balance (format_balance b) = POk b.
+Proof. exact format_parse. Qed.
+Print Assumptions C34_roundtrip.
+
+(* The exact result of parsing  w "." f  for ALL digit strings w and f (any length, leading zeros,
+   empty parts): syntax error if both parts are empty; range error if the whole part alone does
+   not fit 64 bits; syntax error for more than 9 fractional digits; otherwise exactly
+   w*10^9 + f*10^(9-|f|), or a range error if that does not fit 64 bits. *)
+Theorem C34_parse_exact : forall w f, all_digits w -> all_digits f ->
+  parse_balance (w ++ 46 :: f) =
+    match w, f with
+    | [], [] => PSyntax
+    | _, _ => if 2 ^ 64 <=? dval w then PRange
+              else if Nat.ltb 9 (length f) then PSyntax
+              else if value_of w f <? 2 ^ 64 then POk (value_of w f) else PRange
+    end.
+Proof.
+  intros w f Hw Hf. rewrite (parse_balance_dot_exact w f Hw Hf).
+  unfold parts_result, value_of. rewrite amount_pow. reflexivity.
+Qed.
+Print Assumptions C34_parse_exact.
+
+(* The same without a '.' : a plain digit string is a whole number of tokens. *)
+Theorem C34_parse_int_exact : forall w, all_digits w ->
+  parse_balance w =
+    match w with
+    | [] => PSyntax
+    | _ => if 2 ^ 64 <=? dval w then PRange
+           else if dval w * 10 ^ 9 <? 2 ^ 64 then POk (dval w * 10 ^ 9) else PRange
+    end.
+Proof.
+  intros w Hw. rewrite (parse_balance_int_exact w Hw). unfold parts_result.
+  destruct w as [|c r]; [reflexivity|].
+  rewrite amount_pow. change (dval []) with 0. rewrite N.mul_0_l, N.add_0_r. reflexivity.
+Qed.
+Print Assumptions C34_parse_int_exact.
+
+(* Nothing else is accepted: an accepted string is a digit string, optionally followed by '.' and
+   at most 9 digits (not both parts empty), and the result is exactly the denoted amount. So
+   signs, spaces, exponents, a second '.', any non-digit, > 9 fractional digits are all rejected. *)
+Theorem C34_parse_sound : forall s v, parse_balance s = POk v ->
+  exists w f, (s = w /\ f = [] \/ s = w ++ 46 :: f) /\
+              all_digits w /\ all_digits f /\ (w <> [] \/ f <> []) /\ (length f <= 9)%nat /\
+              v = value_of w f /\ v < 2 ^ 64.
+Proof.
+  intros s v H. destruct (parse_balance_sound s v H) as (w & f & H1 & H2 & H3 & H4 & H5 & H6 & H7).
+  exists w, f. unfold value_of. rewrite <- amount_pow. tauto.
+Qed.
+Print Assumptions C34_parse_sound.
+
+(* ---- non-vacuity ------------------------------------------------------------------------- *)
+
+Example C34_roundtrip_2_53_1 : parse_balance (format_balance 9007199254740993) = POk 9007199254740993.
+Proof. vm_compute. reflexivity. Qed.
+Example C34_roundtrip_max : parse_balance (format_balance 18446744073709551615) = POk 18446744073709551615.
+Proof. vm_compute. reflexivity. Qed.
+Example C34_format_example : format_balance 8200000000 = [56; 46; 50; 48; 48; 48; 48; 48; 48; 48; 48].
+Proof. vm_compute. reflexivity. Qed.
+(* "8.2" is exactly 8200000000 (the float64 code returned 8199999999) *)
+Example C34_parse_8_2 : parse_balance [56; 46; 50] = POk 8200000000.
+Proof. vm_compute. reflexivity. Qed.
+Example C34_digits_example : all_digits [56] /\ all_digits [50].
+Proof. split; repeat constructor; discriminate. Qed.
+(* 18446744073.709551616 overflows by one; ...615 is the maximum *)
+Example C34_overflow_by_one :
+  parse_balance [49;56;52;52;54;55;52;52;48;55;51;46;55;48;57;53;53;49;54;49;54] = PRange /\
+  parse_balance [49;56;52;52;54;55;52;52;48;55;51;46;55;48;57;53;53;49;54;49;53] = POk 18446744073709551615.
+Proof. vm_compute. split; reflexivity. Qed.
+Example C34_rejects : parse_balance [] = PSyntax /\ parse_balance [46] = PSyntax /\
+  parse_balance [43; 49] = PSyntax /\ parse_balance [49; 46; 50; 46; 51] = PSyntax /\
+  parse_balance [48; 46; 49; 50; 51; 52; 53; 54; 55; 56; 57; 48] = PSyntax.
+Proof. vm_compute. repeat split. Qed.
+Example C34_sound_example : parse_balance [46; 53] = POk 500000000.
+Proof. vm_compute. reflexivity. Qed.
